@@ -151,15 +151,40 @@ func init() {
 						a, v := Desc(st.Addr), Desc(st.Val)
 						switch {
 						case strings.HasSuffix(a, ".R"):
-							okR = strings.Contains(v, "SignatureData.GetR(P0)")
+							okR = re(`^call:math/big\.Int\.SetBytes\(&?local:new, call:[\w./-]+SignatureData\.GetR\(P0\)\)$`).MatchString(v)
 						case strings.HasSuffix(a, ".S"):
-							okS = strings.Contains(v, "SignatureData.GetS(P0)")
+							// S is taken over as produced by tss-lib (which already emits the
+							// canonical low-S form); any local transformation of it is reported
+							okS = re(`^call:math/big\.Int\.SetBytes\(&?local:new, call:[\w./-]+SignatureData\.GetS\(P0\)\)$`).MatchString(v)
 						case strings.HasSuffix(a, ".RecoveryID"):
-							okV = strings.Contains(v, "SignatureData.GetSignatureRecovery(P0)[const:0]")
+							okV = strings.Contains(v, "SignatureData.GetSignatureRecovery(P0)[const:0]") && !strings.Contains(v, "phi{")
 						}
 					}
 				})
-				r.Cond(okR && okS && okV, "C08.signature", FnName(fn), fn.Pos(), "R, S and the recovery byte come from the respective fields of tss-lib's signature data")
+				// the big.Int objects holding R and S are written once (SetBytes) and not
+				// mutated afterwards (x.Sub(N, x) on the same object would change the
+				// stored value without changing its SSA name)
+				mutated := ""
+				EachInstr(fn, func(in ssa.Instruction) {
+					c, ok := in.(*ssa.Call)
+					if !ok || len(c.Call.Args) == 0 || c.Call.IsInvoke() {
+						return
+					}
+					n := CalleeName(c)
+					if !strings.HasPrefix(n, "math/big.Int.") || n == "math/big.Int.SetBytes" {
+						return
+					}
+					// receiver is a value that was produced by SetBytes of tss output
+					recv := c.Call.Args[0]
+					if sb, isCall := recv.(*ssa.Call); isCall && CalleeName(sb) == "math/big.Int.SetBytes" {
+						switch n {
+						case "math/big.Int.Cmp", "math/big.Int.Sign", "math/big.Int.Bytes", "math/big.Int.String", "math/big.Int.Text", "math/big.Int.BitLen":
+						default:
+							mutated = n
+						}
+					}
+				})
+				r.Cond(okR && okS && okV && mutated == "", "C08.signature", FnName(fn), fn.Pos(), "R, S and the recovery byte are taken over unchanged from tss-lib's signature data (no local transformation; mutating call: "+mutated+")")
 			}
 		},
 	})
